@@ -1,9 +1,76 @@
 (* EditProofs.v -- C16 "Structural editing keeps a statechart sound; failed edits change nothing"
    and the structural half of C17 "renaming changes nothing but the name",
-   for the model of theories/Edit.v.
+   for the model of theories/Edit.v (which mirrors the FIXED /repo: rotate_transition validates
+   before assigning, rename_state leaves internal transitions internal).
 
-   (summary of results and of what is weakened/refuted: see the end of this header, filled in
-   as the development proceeds) *)
+   SUMMARY (no Admitted, no axioms; every Print Assumptions at the end is closed)
+
+   Definitions
+     sound c        the Prop form of Edit.sound_b (tree consistency of _states/_parent/_children,
+                    transition ends, no dangling initial/memory, validate()); sound_b_iff:
+                    sound_b c = true <-> sound c, for charts without a state named "".
+     no_empty_name  no state is called ""           } the two representation facts that sound_b does
+     fields_ok      only compound states carry      } not contain.  Every chart built from Python
+                    `initial`, only history states  } objects satisfies fields_ok (a BasicState has no
+                    `memory`                        } attribute `initial`); "" as a state name is a
+                                                      genuine restriction (`if not parent`, `if self.root`
+                                                      and `while parent` treat '' as "nothing").
+     einv c         := sound c /\ no_empty_name c /\ fields_ok c   -- the invariant of the API
+     op_ok c op     side conditions: add_state st p : s_name st <> "", p <> Some "",
+                    s_initial st = None, memory_ok c st p (memory unset, or st is a history state and
+                    memory names an existing child of p other than st); rename_state _ new : new <> "".
+                    add_state_side_condition_needed shows `s_initial st = None /\ memory_ok` is also
+                    NECESSARY for einv after a successful add_state (so "initial unset or valid"
+                    collapses to "unset": a fresh compound state has no children).
+     rm D c         the chart without the set D of states (order kept everywhere).
+     map_chart r c  the image of a chart under a renaming r of state names.
+
+   Main theorems
+     C16_preserve   einv c -> op_ok c op -> apply_eop c op = (c', EOk) -> einv c'      (all 7 operations)
+     C16_atomic     sound c -> fields_ok c -> apply_eop c op = (c', r) ->
+                    r = EStatechartError \/ r = EValueError -> c' = c                  (all 7 operations)
+     C16_atomic_any the same without any hypothesis on c, for every operation except remove_state
+     remove_state_atomic_unsound_refuted  on an UNSOUND chart (a children list naming a missing state)
+                    remove_state raises StatechartError after having removed other children; not
+                    reachable through the API, hence no finding about sismic -- it only shows why
+                    C16_atomic needs `sound c` for remove_state.
+     C16_no_keyerror einv c -> op_ok c op -> no operation ends in the undocumented KeyError (in
+                    particular the fuel of remove_state_fuel never runs out: remove_state_spec).
+                    add_state_empty_parent_keyerror: add_state(s, '') on an empty chart does end in
+                    KeyError with s half registered (known, DESIGN 8(7) second part; outside C16's
+                    letter, excluded by op_ok).
+     C16_seq        einv c -> ops_ok c ops -> einv (run_ops c ops); C16_seq_skip: the failed calls
+                    can be dropped from the sequence without changing the result.
+     C16_effect_add_transition / remove_transition / rotate_transition / add_state /
+     C16_effect_remove_state / C16_effect_move_state   exact post-states:
+                    remove_state n = rm (n :: descendants_for c n) -- the three dictionaries, all
+                    children lists, the transitions with an end in the set, the initial/memory
+                    fields naming a member, orders kept, nothing else (remove_state_spec is the
+                    equation remove_state c n = (rm (subtree_b c n) c, EOk)).
+                    move_state n p: parent of n := p; n leaves its old parent's list and is appended
+                    to p's; `initial` of the OLD PARENT, `memory` of the HISTORY CHILDREN OF THE OLD
+                    PARENT (not of the old parent itself) and the memory of n itself are reset when
+                    they named n (move_state_touched says who can be hit); nothing else.
+     C17_structure  (= C16_effect_rename) rename_state old new with old <> new on a sound chart gives
+                    map_chart (old |-> new) c up to position: same transitions list, same lookups in
+                    _states and _parent, children lists equal up to `to_end new`, key orders = the old
+                    ones with the renamed key moved to the end (dict_ext/odict_ext: keys + lookups
+                    determine a dictionary).  C17_internal_stay_internal: for ANY chart the
+                    transitions after rename_state are map (map_trans r): target None stays None.
+     rename_state_sound, remove_state_sound, move_state_sound, add_state_sound, ...: per operation.
+
+   PARTIAL / REFUTED / DIFFERENCES WITH THE PLAN
+     * Nothing is admitted.  Nothing about sismic is refuted: C16_atomic and C17_structure hold of the
+       (fixed) model; the DESIGN's "expected C16_atomic_refuted / C17_structure_refuted" described the
+       unfixed code.
+     * Hypotheses beyond `sound`: fields_ok (needed: remove_state_sound_needs_fields_ok gives a model
+       chart with sound_b = true that remove_state makes unsound) and no_empty_name (needed by
+       add_state: a root called "" is not seen by `if self.root`; and by rename_state: an initial
+       naming "" is not validated before and is validated after the renaming).
+     * C16_atomic for remove_state is proved under sound /\ fields_ok (the proof goes through the
+       soundness of the intermediate charts); the other six operations need no hypothesis.
+     * Transitions are referred to by index / by == as in Edit.v.
+   Non-vacuity: section 8 (ex_chart: 10 states, orthogonal + history; ex_ops: 18 calls, 8 failing). *)
 From Coq Require Import String Ascii List Bool ZArith NArith Arith Lia Permutation Sorted.
 From Sismic Require Import Base Chart Edit.
 From SismicProofs Require Import SortLib.
